@@ -69,6 +69,7 @@ impl Property for C12 {
             header_spacing: true,
             final_newline: None,
             cr_at_eol: false,
+            mixed_eol: true,
         };
         let variants: &[bool] = if b.force_no_newline { &[false] } else { &[true, false] };
         for keep_nl in variants {
